@@ -65,3 +65,48 @@ func bytesObjStm(d *rawpdf.Doc) []byte {
 	fmt.Fprintf(&b, "\nendstream\nendobj\nstartxref\n%d\n%%%%EOF\n", start)
 	return b.Bytes()
 }
+
+// nestedDoc builds an n-page marker document whose pages inherit everything from INTERMEDIATE page tree nodes: the root
+// /Pages node carries no inheritable attribute, first-level nodes (4 pages each) carry /MediaBox, second-level nodes
+// (2 pages each) carry /Rotate and every other one a /CropBox; the page dictionaries carry none of them.
+func nestedDoc(n int, prefix string) *rawpdf.Doc {
+	d := &rawpdf.Doc{}
+	cat := d.Reserve()
+	d.Root = cat
+	root := d.Reserve()
+	font := d.Add("<< /Type /Font /Subtype /Type1 /BaseFont /Helvetica >>")
+	var l1refs []string
+	page := 0
+	for a := 0; page < n; a++ {
+		l1 := d.Reserve()
+		var l2refs []string
+		cnt1 := 0
+		for b := 0; b < 2 && page < n; b++ {
+			l2 := d.Reserve()
+			var prefs []string
+			for c := 0; c < 2 && page < n; c++ {
+				page++
+				cs := d.AddStream("", []byte(rawpdf.MarkerContent(fmt.Sprintf("%s-%d", prefix, page))))
+				prefs = append(prefs, fmt.Sprintf("%d 0 R", d.Add(fmt.Sprintf(
+					"<< /Type /Page /Parent %d 0 R /Contents %d 0 R /Resources << /Font << /F1 %d 0 R >> >> >>", l2, cs, font))))
+			}
+			body := fmt.Sprintf("<< /Type /Pages /Parent %d 0 R /Count %d /Kids [%s] /Rotate %d", l1, len(prefs), strings.Join(prefs, " "), 90*((a+b)%4))
+			if b == 1 {
+				body += " /CropBox [10 10 150 200]"
+			}
+			d.Set(l2, body+" >>")
+			l2refs = append(l2refs, fmt.Sprintf("%d 0 R", l2))
+			cnt1 += len(prefs)
+		}
+		media := "[0 0 595 842]"
+		if a%2 == 1 {
+			media = "[0 0 300 400]"
+		}
+		d.Set(l1, fmt.Sprintf("<< /Type /Pages /Parent %d 0 R /Count %d /Kids [%s] /MediaBox %s >>", root, cnt1, strings.Join(l2refs, " "), media))
+		l1refs = append(l1refs, fmt.Sprintf("%d 0 R", l1))
+	}
+	d.Set(root, fmt.Sprintf("<< /Type /Pages /Count %d /Kids [%s] >>", n, strings.Join(l1refs, " ")))
+	d.Set(cat, fmt.Sprintf("<< /Type /Catalog /Pages %d 0 R >>", root))
+	d.Info = d.Add(fmt.Sprintf("<< /Title (nested %d) >>", n))
+	return d
+}
